@@ -46,7 +46,7 @@ def gen_case(rng, tier, idx):
     if idx % 8 == 7:
         # maps built indirectly: decoders, bridges, builders, peripherals (invariant walker installed on the class)
         return {"kind": "hier", "root": rng.choice(["wb", "wb", "csr"]), "max_space": rng.choice([8, 10, 12, 14])}
-    root_aw = rng.choice([1, 2, 3, 4, 4, 5, 6, 8, 8, 10, 12, 16])
+    root_aw = rng.choice([1, 2, 3, 4, 4, 5, 6, 8, 8, 10, 12, 16, 24, 32])
     nmaps = rng.randint(2, 5)
     maps = []
     for k in range(nmaps):
